@@ -256,7 +256,7 @@ class Effects:
                             out.append((s, r, 'in-place %s on %s' % (type(s.op).__name__, t.id)))
             elif isinstance(s, ast.Call):
                 f = norm(s.func)
-                if isinstance(s.func, ast.Attribute) and s.func.attr in mm:
+                if isinstance(s.func, ast.Attribute) and s.func.attr in mm and ('.' + s.func.attr) not in self.summaries:
                     for r in roots(s.func.value):
                         out.append((s, r, 'mutating method %s' % f))
                 if f in mc:
